@@ -246,7 +246,7 @@ def run_impl(lines, flavour="plain", fork=False, shards=1, limit=10):
     tmpdir = os.path.join(CACHE, "tmp")
     os.makedirs(tmpdir, exist_ok=True)
     env = dict(os.environ)
-    env["ASAN_OPTIONS"] = "detect_leaks=0:abort_on_error=0:exitcode=97:allocator_may_return_null=1"
+    env["ASAN_OPTIONS"] = "detect_leaks=0:abort_on_error=0:exitcode=97:allocator_may_return_null=1:hard_rss_limit_mb=6000:symbolize=0"
     env["UBSAN_OPTIONS"] = "halt_on_error=1:exitcode=98:print_stacktrace=0"
     if not lines:
         return []
